@@ -257,7 +257,8 @@ CLAIMED = {
               "written file recovers from the words of VolumeT4.__str__ (model volLine, compared with the code on random "
               "volumes) exactly the sorted PLUS and MINUS sets, the operator with its operands, the FICTIVE flag and "
               "ENDV, with no complaint — declared counts equal the ids that follow, for all sets, operand lists and "
-              "flags (volume_line_roundtrip)."),
+              "flags (volume_line_roundtrip), and the same starting from the text of the line, split at blanks "
+              "(volume_line_text_roundtrip); a GEOMCOMP line is read back as name, count and volumes (geomcomp_line_roundtrip)."),
         design_ref='§8 C08'),
     'C11': dict(
         technique='Lean 4 proof (structural/fuel induction over expression trees; token/gap invariants through the regex passes of normalize) + model↔code correspondence + Lean spec monitor',
